@@ -1,5 +1,6 @@
 import AaVerif.Proto
 import AaVerif.Generated.Chains
+import AaVerif.Flags
 open Proto
 
 /-- model of a builder by name, when it is one of the literal replace lists -/
@@ -8,6 +9,8 @@ def builderModel (name : String) : Option (List Char → List Char) :=
   | "hotfix" => some (Str.runSteps Generated.hotfix)
   | "fsp" => some (Str.runSteps Generated.fsp)
   | "abi3" => some (Str.runSteps Generated.abi3)
+  | "complain" => some Flags.complain
+  | "enforce" => some Flags.enforce
   | _ => none
 
 def suiteBuilder (f : List String) : String :=
@@ -24,7 +27,25 @@ def suiteBuilder (f : List String) : String :=
     | none => "err\tunknown-builder"
   | _ => "err\tbad-op"
 
+/-- `Flagger.Read` on one manifest line + `SetFlags.Apply` on the text of profile `p` -/
+def suiteSetflags (f : List String) : String :=
+  match f with
+  | [line, text] =>
+    let line := unesc line
+    let t := unesc text
+    -- util.Filter drops comments and blank lines; the generator never sends those
+    let parts := splitOnChar ' ' line
+    let name := parts.headD []
+    if name != ['p'] then "ok\t" ++ esc t ++ "\t1" else
+    let flags := match parts.drop 1 with
+      | [] => []
+      | x :: _ => Flags.splitComma x
+    if flags.isEmpty then "ok\t" ++ esc t ++ "\t0"
+    else "ok\t" ++ esc (Flags.setFlags flags t) ++ "\t0"
+  | _ => "err\tbad-op"
+
 def main (args : List String) : IO Unit := do
   match args with
   | ["builder"] => serve suiteBuilder
+  | ["setflags"] => serve suiteSetflags
   | _ => IO.eprintln "usage: driver <suite>"
